@@ -136,8 +136,8 @@ def read_case_term(c):
     evs = [ievent_term(e) for e in c["events"]]
     if any(e is None for e in evs):
         evs = ["IPanic", "IIo", "IPanic"]       # cannot match any model run
-    return "(%d, %d, %s, %s, %s, %s)" % (c["max_frame"], c["max_hls"], NL(c["bytes"]), NL(c["lens"]),
-                                         common.coq_list(evs), B(c["eof_io"]))
+    return "(%d, %d, (%s : list N), (%s : list N), (%s : list ievent), %s)" % (
+        c["max_frame"], c["max_hls"], NL(c["bytes"]), NL(c["lens"]), common.coq_list(evs), B(c["eof_io"]))
 
 
 def serialize_case_term(c):
@@ -166,7 +166,7 @@ def op_term(o, frames):
 
 
 def write_case_term(c):
-    return "(%s, %d, %s, %s, %s, %s)" % (
+    return "(%s, %d, (%s : list op), (%s : list titem), (%s : list N), (%s : list (list N)))" % (
         B(c["vectored"]), c["max"], common.coq_list([op_term(o, c["frames"]) for o in c["ops"]]),
         common.coq_list([titem_term(t) for t in c["script"]]), NL(c["obs"]),
         common.coq_list([NL(w) for w in c["writes"]]))
@@ -333,8 +333,8 @@ def shrink_write(case, still_fails, budget=30):
 def generate(tier, seed, salt=0):
     big = tier != "quick"
     plan = [("parse", 9000 if big else 400), ("malformed", 8000 if big else 330),
-            ("readchunk", 1500 if big else 70), ("serialize", 6000 if big else 300),
-            ("writechunk", 3000 if big else 130)]
+            ("readchunk", 1500 if big else 60), ("serialize", 6000 if big else 300),
+            ("writechunk", 3000 if big else 110)]
     cases, dist = [], {}
     for mode, n in plan:
         cs, summary = harness(mode, int(seed) + salt, n)
@@ -444,12 +444,14 @@ def search_framecodec(rep, tier, seed, cases=None):
     # documented deviations are known findings, not violations
     known = {}
     read_cases = [i for i, c in enumerate(cases) if c["mode"] in READ_MODES]
-    for code, text in KNOWN.items():
-        hit, _ = eval_bool("framecodec_known%d" % code, {m: "(oracle_known %d)" % code for m in TERM},
-                           [cases[i] for i in read_cases])
-        if hit:
-            known[code] = len(hit)
-            rep.known(text)
+    anyhit, _ = eval_bool("framecodec_known0", {m: "(oracle_known 0)" for m in TERM}, [cases[i] for i in read_cases])
+    hit_cases = [cases[read_cases[j]] for j in anyhit]
+    if hit_cases:
+        for code, text in KNOWN.items():
+            hit, _ = eval_bool("framecodec_known%d" % code, {m: "(oracle_known %d)" % code for m in TERM}, hit_cases)
+            if hit:
+                known[code] = len(hit)
+                rep.known(text)
     rep.oracle_runs.append({"name": "framecodec-reference-oracle", "cases": len(cases),
                             "nontrivial": sum(1 for c in cases if is_nontrivial(c)),
                             "failures": len(bad) + len(chunk_bad), "known_deviation_hits": known,
